@@ -19,8 +19,58 @@ import (
 
 type strictFs struct {
 	afero.Fs
-	mu sync.Mutex
+	mu    sync.Mutex
+	trick *writeTrick
 }
+
+// writeTrick: the next Write on the file `path` stores only its first `keep` bytes. lie=false: it honestly returns the
+// short count with a nil error (the classical short write; callers are expected to notice, io.ErrShortWrite);
+// lie=true: it reports the full length (silent corruption; only an end-to-end check such as the transfer hash can notice).
+type writeTrick struct {
+	path string
+	keep int
+	lie  bool
+}
+
+func (s *strictFs) arm(t *writeTrick) {
+	s.mu.Lock()
+	s.trick = t
+	s.mu.Unlock()
+}
+
+func (s *strictFs) take(name string) *writeTrick {
+	s.mu.Lock()
+	defer s.mu.Unlock()
+	if s.trick != nil && s.trick.path == name {
+		t := s.trick
+		s.trick = nil
+		return t
+	}
+	return nil
+}
+
+type strictFile struct {
+	afero.File
+	s    *strictFs
+	name string
+}
+
+func (f *strictFile) Write(p []byte) (int, error) {
+	if t := f.s.take(f.name); t != nil {
+		k := t.keep
+		if k > len(p) {
+			k = len(p)
+		}
+		n, err := f.File.Write(p[:k])
+		if err != nil || !t.lie {
+			return n, err
+		}
+		return len(p), nil
+	}
+	return f.File.Write(p)
+}
+
+func (f *strictFile) WriteString(str string) (int, error) { return f.Write([]byte(str)) }
 
 func (s *strictFs) check(name string, flag int) error {
 	if flag&(os.O_CREATE|os.O_WRONLY|os.O_RDWR|os.O_TRUNC|os.O_APPEND) == 0 {
@@ -43,7 +93,11 @@ func (s *strictFs) Create(name string) (afero.File, error) {
 	if err := s.check(name, os.O_RDWR|os.O_CREATE|os.O_TRUNC); err != nil {
 		return nil, err
 	}
-	return s.Fs.Create(name)
+	fl, err := s.Fs.Create(name)
+	if err != nil {
+		return nil, err
+	}
+	return &strictFile{File: fl, s: s, name: name}, nil
 }
 
 func (s *strictFs) OpenFile(name string, flag int, perm os.FileMode) (afero.File, error) {
@@ -52,7 +106,11 @@ func (s *strictFs) OpenFile(name string, flag int, perm os.FileMode) (afero.File
 	if err := s.check(name, flag); err != nil {
 		return nil, err
 	}
-	return s.Fs.OpenFile(name, flag, perm)
+	fl, err := s.Fs.OpenFile(name, flag, perm)
+	if err != nil {
+		return nil, err
+	}
+	return &strictFile{File: fl, s: s, name: name}, nil
 }
 
 func (s *strictFs) Mkdir(name string, perm os.FileMode) error {
